@@ -595,6 +595,137 @@ Qed.
 Example ex_runs : o3 (drive ex_prog false) = Ok (VList [VInt 7]) /\ fst (eval ex_prog) = Ok (VList [VInt 7]).
 Proof. split; reflexivity. Qed.
 
+(* ------------------------------------------------------------------ T6: exception instances as values *)
+(* A member that finished successfully is data, whatever its value is: an exception instance that
+   was *returned* ([Ok (VExc e)]) is never raised at the yield.  What a yield raises is always the
+   failure of one of its own members (or the TypeError of a non-future). *)
+Lemma first_error_in rs e : first_error rs = Some e -> In (Err e) rs.
+Proof.
+  induction rs as [|[v|e'] r IH]; cbn; intros H; try discriminate.
+  - right; auto.
+  - inversion H; subst. left; reflexivity.
+Qed.
+
+Lemma first_error_all_ok vs : first_error (map Ok vs) = None.
+Proof. induction vs; cbn; auto. Qed.
+
+Lemma gather_all_ok vs : gather (map Ok vs) = inr vs.
+Proof.
+  unfold gather. rewrite first_error_all_ok. f_equal.
+  induction vs as [|v r IH]; cbn; auto. rewrite IH. reflexivity.
+Qed.
+
+Lemma youts_in (so : ystruct outcome) o : In o (youts so) -> o = Err E_TYPEERROR \/ In o (yleaves so).
+Proof.
+  induction so using ystruct_ind2; cbn; intros Hin; try contradiction.
+  - right; exact Hin.
+  - destruct Hin as [<-|[]]. left; reflexivity.
+  - induction H as [|x r Hx Hr IH]; cbn in *; try contradiction.
+    apply in_app_or in Hin. destruct Hin as [Hin|Hin].
+    + destruct (Hx Hin); auto. right. apply in_or_app; auto.
+    + destruct (IH Hin); auto. right. apply in_or_app; auto.
+  - induction H as [|x r Hx Hr IH]; cbn in *; try contradiction.
+    apply in_app_or in Hin. destruct Hin as [Hin|Hin].
+    + destruct (Hx Hin); auto. right. apply in_or_app; auto.
+    + destruct (IH Hin); auto. right. apply in_or_app; auto.
+  - induction H as [|x r Hx Hr IH]; cbn in *; try contradiction.
+    apply in_app_or in Hin. destruct Hin as [Hin|Hin].
+    + destruct (Hx Hin); auto. right. apply in_or_app; auto.
+    + destruct (IH Hin); auto. right. apply in_or_app; auto.
+Qed.
+
+(* a yield raises e only if e is the TypeError of a non-future or one of the yielded members itself
+   finished with Err e *)
+Lemma raised_only_if_member_failed A (aw : A -> bool -> tr3) (s : ystruct A) fl e :
+  o3 (resolve aw s fl) = Err e ->
+  e = E_TYPEERROR \/ exists a, In a (yleaves s) /\ o3 (aw a fl) = Err e.
+Proof.
+  intros H. destruct (resolve_unwrap _ aw s fl) as [Ro _]. rewrite Ro in H.
+  rewrite unwrap_first_error in H.
+  destruct (first_error (youts (ymap (fun a => o3 (aw a fl)) s))) as [e'|] eqn:Ef; try discriminate.
+  inversion H; subst e'. apply first_error_in in Ef. apply youts_in in Ef.
+  destruct Ef as [Ef|Ef].
+  - left. inversion Ef; reflexivity.
+  - right. rewrite yleaves_ymap in Ef. apply in_map_iff in Ef. destruct Ef as [a [Ha Hin]]. exists a; auto.
+Qed.
+
+Fixpoint has_bad A (s : ystruct A) : bool :=
+  match s with
+  | YBad => true
+  | YNone | YLeaf _ => false
+  | YTuple l | YList l => existsb (has_bad A) l
+  | YDict l => existsb (fun kv => has_bad A (snd kv)) l
+  end.
+Arguments has_bad {A} s.
+
+Lemma youts_all_ok A (f : A -> outcome) (s : ystruct A) :
+  has_bad s = false -> Forall (fun a => exists v, f a = Ok v) (yleaves s) ->
+  first_error (youts (ymap f s)) = None.
+Proof.
+  induction s using ystruct_ind2; cbn; intros Hb Hl; auto; try discriminate.
+  - inversion Hl as [|? ? [v Hv] ?]; subst. rewrite Hv. reflexivity.
+  - induction H as [|x r Hx Hr IH]; cbn in *; auto.
+    apply orb_false_iff in Hb. destruct Hb as [Hb1 Hb2]. apply Forall_app in Hl. destruct Hl as [Hl1 Hl2].
+    rewrite first_error_app, Hx; auto.
+  - induction H as [|x r Hx Hr IH]; cbn in *; auto.
+    apply orb_false_iff in Hb. destruct Hb as [Hb1 Hb2]. apply Forall_app in Hl. destruct Hl as [Hl1 Hl2].
+    rewrite first_error_app, Hx; auto.
+  - induction H as [|x r Hx Hr IH]; cbn in *; auto.
+    apply orb_false_iff in Hb. destruct Hb as [Hb1 Hb2]. apply Forall_app in Hl. destruct Hl as [Hl1 Hl2].
+    rewrite first_error_app, Hx; auto.
+Qed.
+
+(* if every yielded member finished successfully (and nothing yielded is a non-future), the yield
+   delivers a value - the structure of the members' values, exception instances included *)
+Lemma all_ok_is_value A (aw : A -> bool -> tr3) (s : ystruct A) fl :
+  has_bad s = false ->
+  Forall (fun a => exists v, o3 (aw a fl) = Ok v) (yleaves s) ->
+  o3 (resolve aw s fl) = Ok (yval (ymap (fun a => value_of (o3 (aw a fl))) s)).
+Proof.
+  intros Hb Hl. destruct (resolve_unwrap _ aw s fl) as [Ro _]. rewrite Ro.
+  rewrite unwrap_first_error, youts_all_ok by assumption. rewrite ymap_ymap. reflexivity.
+Qed.
+
+(* the class with exception values is inhabited: a validator that returns its error, next to one
+   that raises and is caught by the parent, which keeps the caught instance as data too *)
+Definition ex_xprog : prog :=
+  Yield (YList [ex_child 2 AfNone (Ret (VExc 7)); YTuple [YLeaf (LConst (VExc 8)); ex_child 3 (AfNative (Ok (VExc 9))) (Ret (VExc 9))]])
+        (fun o => match o with
+                  | Ok v => Yield (ex_child 4 AfNone (Raise 5))
+                                  (fun o2 => match o2 with Ok _ => Ret v | Err e => Ret (VTuple [v; VExc e]) end)
+                  | Err e => Raise e
+                  end).
+Example ex_xwf : wf ex_xprog.
+Proof.
+  cbn. repeat split; auto. intros [v|e]; cbn; auto. repeat split; auto. intros [v2|e2]; exact I.
+Qed.
+Example ex_xruns :
+  o3 (drive ex_xprog false) = Ok (VTuple [VList [VExc 7; VTuple [VExc 8; VExc 9]]; VExc 5]) /\
+  fst (eval ex_xprog) = Ok (VTuple [VList [VExc 7; VTuple [VExc 8; VExc 9]]; VExc 5]).
+Proof. split; reflexivity. Qed.
+
+Lemma exception_value_is_data :
+  (forall vs, gather (map Ok vs) = inr vs) /\
+  (forall (s : ystruct (leaf prog)) fl, has_bad s = false ->
+      Forall (fun a => exists v, o3 (await_leaf drive a fl) = Ok v) (yleaves s) ->
+      o3 (resolve (await_leaf drive) s fl) = Ok (yval (ymap (fun a => value_of (o3 (await_leaf drive a fl))) s))) /\
+  (forall (s : ystruct (leaf prog)) fl e, o3 (resolve (await_leaf drive) s fl) = Err e ->
+      e = E_TYPEERROR \/ exists a, In a (yleaves s) /\ o3 (await_leaf drive a fl) = Err e) /\
+  (forall c e k fl, converted c ->
+      drive (Yield (YList [YLeaf (LCall c (Ret (VExc e)))]) k) fl =
+      (let r := drive (k (Ok (VList [VExc e]))) fl in
+       (o3 r, f3 r, EvBody (cid c) true :: EvDone (cid c) (Ok (VExc e)) :: t3 r))) /\
+  (wf ex_xprog /\ o3 (drive ex_xprog false) = fst (eval ex_xprog) /\
+   fst (eval ex_xprog) = Ok (VTuple [VList [VExc 7; VTuple [VExc 8; VExc 9]]; VExc 5])).
+Proof.
+  split; [exact gather_all_ok|]. split; [exact (all_ok_is_value _ (await_leaf drive))|].
+  split; [exact (raised_only_if_member_failed _ (await_leaf drive))|]. split.
+  - intros c e k fl Hc. rewrite drive_Yield. cbn [resolve map await_leaf].
+    rewrite call_asyncio_conv by exact Hc. cbn.
+    destruct (drive (k (Ok (VList [VExc e]))) fl) as [[o f] t]. reflexivity.
+  - split; [exact ex_xwf|]. destruct ex_xruns as [H1 H2]. split; [rewrite H1, H2; reflexivity | exact H2].
+Qed.
+
 (* ------------------------------------------------------------------ the statements of props/C15.v *)
 Lemma all_awaited_then_first_error : forall (s : ystruct (leaf prog)) k fl,
   let R := resolve (await_leaf drive) s fl in
